@@ -140,15 +140,33 @@ func TestC15bStoredValues(t *testing.T) {
 			key := keys[rapid.IntRange(0, len(keys)-1).Draw(rt, "damageKey")]
 			pos := rapid.IntRange(0, len(content[key])-1).Draw(rt, "damagePos")
 			x := byte(rapid.IntRange(1, 255).Draw(rt, "damageXor"))
+			// … or the record is cut below the 12-byte minimum (it stays present)
+			short := -1
+			if rapid.IntRange(0, 2).Draw(rt, "truncateInstead") == 0 {
+				short = rapid.IntRange(0, 11).Draw(rt, "shortLen")
+				if short > len(content[key]) {
+					short = len(content[key])
+				}
+			}
 			orig := append([]byte(nil), content[key]...)
 			n, _ := h.restart(restartOpts{K: h.Store.NOps(), Late: true, Config: cfg, Mutate: func(store map[uint][]byte) {
-				v := append([]byte(nil), store[key]...)
+				v := append([]byte{}, store[key]...)
+				if short >= 0 {
+					store[key] = v[:short]
+					return
+				}
 				v[pos] ^= x
 				store[key] = v
 			}})
-			n.Act("record %#x altered at byte %d with %#02x", key, pos, x)
+			if short >= 0 {
+				n.Act("record %#x cut to %d bytes", key, short)
+			} else {
+				n.Act("record %#x altered at byte %d with %#02x", key, pos, x)
+			}
 			damagedPacket := append([]byte(nil), stripTrailer(orig)...)
-			if pos < len(damagedPacket) {
+			if short >= 0 {
+				damagedPacket = nil
+			} else if pos < len(damagedPacket) {
 				damagedPacket[pos] ^= x
 			}
 			if n.Fatal == nil {
@@ -162,8 +180,9 @@ func TestC15bStoredValues(t *testing.T) {
 					out := c.OutCopy()
 					ps, _, _ := refmqtt.DecodeAll(out)
 					for _, p := range ps {
-						if p.Type == refmqtt.CONNECT && key == 0 && p.Connect.ClientID != clientID && p.Connect.ClientID != "" {
-							n.Failf("CONNECT carries the damaged client identifier %q", p.Connect.ClientID)
+						// (the record is still there, altered or cut, not removed: nothing but the saved identifier may be used)
+						if p.Type == refmqtt.CONNECT && key == 0 && p.Connect.ClientID != clientID {
+							n.Failf("the client-identifier record was damaged, yet a CONNECT goes out, with client identifier %q", p.Connect.ClientID)
 						}
 						if (p.Type == refmqtt.PUBLISH || p.Type == refmqtt.PUBREL) && uint(p.ID) == key {
 							n.Failf("the adopted client transmits %s although record %#x was altered", p, key)
